@@ -152,7 +152,10 @@ class COVDetection(DetectionAlgorithm):
 
     properties_tracked = ()
     properties_reported = ()
-    monitored_property_reference = None
+
+    # what activeCovSubscriptions shows for a subscription to the object as
+    # a whole, criteria classes with another reference property override it
+    monitored_property_reference = 'presentValue'
 
     def __init__(self, obj):
         if _debug: COVDetection._debug("__init__ %r", obj)
